@@ -894,3 +894,23 @@ macro_rules! sh_ops {
     )*};
 }
 sh_ops!(Shl shl, Shr shr, BitOr bitor, BitXor bitxor, BitAnd bitand, Add add, Sub sub, Mul mul, Div div, Rem rem);
+
+// ------------------------------------------------------------------------------------------
+// handlers written as (multi-segment, turbofish) function paths: `map => w::hf2::<17, _, _>`
+// ------------------------------------------------------------------------------------------
+macro_rules! path_handlers {
+    ($( $n:literal: $hf:ident $hfo:ident $hfr:ident $ahf:ident $ahfr:ident ($($p:ident $t:ident),+) )+) => {$(
+        pub fn $hf<const EV: u32, $($t: Val),+>($($p: $t),+) -> Tok { h(EV, &[$($p.dg()),+]) }
+        pub fn $hfo<const EV: u32, $($t: Val),+>($($p: $t),+) -> Option<Tok> { h_o(EV, &[$($p.dg()),+]) }
+        pub fn $hfr<const EV: u32, $($t: Val),+>($($p: $t),+) -> Result<Tok, ETok> { h_r(EV, &[$($p.dg()),+]) }
+        pub fn $ahf<const EV: u32, $($t: Val),+>($($p: $t),+) -> Gate<Tok> { ah(EV, &[$($p.dg()),+]) }
+        pub fn $ahfr<const EV: u32, $($t: Val),+>($($p: $t),+) -> Gate<Result<Tok, ETok>> { ah_r(EV, &[$($p.dg()),+]) }
+    )+};
+}
+path_handlers! {
+    1: hf1 hfo1 hfr1 ahf1 ahfr1 (a A)
+    2: hf2 hfo2 hfr2 ahf2 ahfr2 (a A, b B)
+    3: hf3 hfo3 hfr3 ahf3 ahfr3 (a A, b B, c C)
+    4: hf4 hfo4 hfr4 ahf4 ahfr4 (a A, b B, c C, d D)
+    5: hf5 hfo5 hfr5 ahf5 ahfr5 (a A, b B, c C, d D, e E)
+}
